@@ -247,3 +247,10 @@ def r5(ctx: Ctx) -> None:
         else:
             ctx.unrec(f, made[0].node, "the round returns the records of its own fills", "the way the returned list is built is not modelled", short(r)[:160])
     ctx.require(n >= 1, f"{q}: no path that fills")
+
+
+@rule("C05.H1", "mechanism shared with C18: the agent whose holdings a fill changes is the agent registered under the id the fill names (one agent per id, filed under its own id)", "T3 + T10 (registry part of C18.R2)", floor=3)
+def h1(ctx: Ctx) -> None:
+    from .c18 import check_registries
+
+    check_registries(ctx)
